@@ -6,16 +6,6 @@ From GV Require Import Query.Plan Query.Opt Query.ProofsOptBase Query.ProofsOptP
 Open Scope Z_scope.
 
 (** ** the boolean equalities decide equality *)
-Lemma val_eqb_eq : forall a b, val_eqb a b = true -> a = b.
-Proof.
-  intros a b; destruct a, b; cbn [val_eqb]; try discriminate; intros H; try reflexivity.
-  - apply Bool.eqb_prop in H. congruence.
-  - apply Z.eqb_eq in H. congruence.
-  - apply String.eqb_eq in H. congruence.
-  - apply Z.eqb_eq in H. congruence.
-  - apply Z.eqb_eq in H. congruence.
-Qed.
-
 Lemma val_eqb_sym : forall a b, val_eqb a b = val_eqb b a.
 Proof.
   intros a b; destruct a as [|x|x|x|x|x], b as [|y|y|y|y|y]; cbn [val_eqb]; try reflexivity.
@@ -427,13 +417,6 @@ Lemma val_eqb_refl : forall a, val_eqb a a = true.
 Proof.
   destruct a; cbn [val_eqb]; try reflexivity;
     try apply Z.eqb_refl; try apply String.eqb_refl. destruct b; reflexivity.
-Qed.
-
-Lemma row_eqb_eq : forall a b, row_eqb a b = true -> a = b.
-Proof.
-  induction a as [|[k v] a IH]; destruct b as [|[k' v'] b]; cbn [row_eqb]; try discriminate; [reflexivity|].
-  intros H. apply andb_true_iff in H as [H H3]. apply andb_true_iff in H as [H1 H2].
-  apply String.eqb_eq in H1. apply val_eqb_eq in H2. rewrite (IH _ H3). congruence.
 Qed.
 
 Lemma row_eqb_refl : forall a, row_eqb a a = true.
